@@ -426,152 +426,8 @@ fn fix_custom(q: &mut Query) {
     }
 }
 
-// ---------------------------------------------------------------- the explicit rendering (oracle)
-// Written from the SQLite grammar, independently of the crate: every operand parenthesised, every value as a literal,
-// every clause spelled out in grammar order.
-
-fn qi(s: &str) -> String { format!("\"{}\"", s.replace('"', "\"\"")) }
-fn lit(v: &Val) -> String {
-    match &v.v {
-        Pay::Null => "NULL".into(), Pay::Bool(b) => if *b { "1".into() } else { "0".into() }, Pay::Int(i) => i.to_string(),
-        // floats: own spelling (exponent form is a REAL literal in SQLite), independent of the crate's
-        Pay::Num(t) => match &v.real { Value::Double(Some(x)) => format!("{x:e}"), Value::Float(Some(x)) => format!("{:e}", *x as f64), _ => t.clone() },
-        Pay::Str(s) => format!("'{}'", s.replace('\'', "''")), Pay::Bytes(b) => format!("x'{}'", hex(b)), Pay::Quoted(t) => format!("'{t}'"),
-    }
-}
-fn xop(o: &Op) -> String {
-    match o { Op::Custom(s) => s.to_string(), Op::Std(i) => match i { 0 => "AND", 1 => "OR", 2 => "LIKE", 3 => "NOT LIKE", 4 => "IS", 5 => "IS NOT", 6 => "IN", 7 => "NOT IN", 8 => "BETWEEN", 9 => "NOT BETWEEN",
-        10 => "=", 11 => "<>", 12 => "<", 13 => ">", 14 => "<=", 15 => ">=", 16 => "+", 17 => "-", 18 => "*", 19 => "/", 20 => "%", 21 => "&", 22 => "|", 23 => "<<", 24 => ">>", 60 => "GLOB", 61 => "MATCH", 62 => "->", 63 => "->>", _ => "?op?" }.to_string() }
-}
-fn xcol(c: &ColRef) -> String { match c { ColRef::Col(c) => qi(c), ColRef::TCol(t, c) => format!("{}.{}", qi(t), qi(c)), ColRef::STCol(s, t, c) => format!("{}.{}.{}", qi(s), qi(t), qi(c)), ColRef::Star => "*".into(), ColRef::TStar(t) => format!("{}.*", qi(t)) } }
-fn xfn(f: &Fun) -> String { match f { Fun::Custom(n) => n.clone(), Fun::Pg(_) => "?pg?".into(), Fun::Std(i) => ["MAX", "MIN", "SUM", "AVG", "ABS", "COALESCE", "COUNT", "IFNULL", "MAX", "MIN", "LENGTH", "CAST", "LOWER", "UPPER", "BIT_AND", "BIT_OR", "RANDOM", "ROUND", "MD5"][*i as usize].to_string() } }
-pub fn xex(e: &Ex) -> String {
-    match e {
-        Ex::Col(c) => xcol(c), Ex::Val(v) | Ex::Const(v) => lit(v),
-        Ex::Tuple(es) => format!("({})", es.iter().map(xex).collect::<Vec<_>>().join(", ")),
-        Ex::Vals(vs) => format!("({})", vs.iter().map(lit).collect::<Vec<_>>().join(", ")),
-        Ex::Not(x) => format!("(NOT {})", xex(x)),
-        Ex::Func(Fun::Std(11), _, a) => match &a[0] { Ex::Bin(x, _, t) => format!("CAST({} AS {})", xex(x), if let Ex::Cust(t) = &**t { t.clone() } else { "?".into() }), _ => "?cast?".into() },
-        Ex::Func(f, d, a) => format!("{}({}{})", xfn(f), if *d { "DISTINCT " } else { "" }, a.iter().map(xex).collect::<Vec<_>>().join(", ")),
-        Ex::Bin(l, o, r) => match (o, &**r) {
-            (Op::Std(6), Ex::Tuple(t)) if t.is_empty() => "(1 = 2)".into(),
-            (Op::Std(7), Ex::Tuple(t)) if t.is_empty() => "(1 = 1)".into(),
-            (Op::Std(8 | 9), Ex::Bin(lo, _, hi)) => format!("({} {} {} AND {})", xex(l), xop(o), xex(lo), xex(hi)),
-            (Op::Std(2 | 3), Ex::Bin(p, Op::Std(26), c)) => format!("({} {} {} ESCAPE {})", xex(l), xop(o), xex(p), xex(c)),
-            (Op::Std(6 | 7), Ex::Subq(None, q)) => format!("({} {} ({}))", xex(l), xop(o), xq(q)),
-            _ => format!("({} {} {})", xex(l), xop(o), xex(r)),
-        },
-        Ex::Subq(o, q) => match o { Some(0) => format!("(EXISTS ({}))", xq(q)), _ => format!("({})", xq(q)) },
-        Ex::Cust(s) => s.clone(),
-        Ex::CustW(t, _) => t.clone(),
-        Ex::Kw(k) => match k { Kw::Null => "NULL".into(), Kw::CurrentDate => "CURRENT_DATE".into(), Kw::CurrentTime => "CURRENT_TIME".into(), Kw::CurrentTimestamp => "CURRENT_TIMESTAMP".into(), Kw::Custom(s) => s.clone() },
-        Ex::Enum(_, x) => xex(x),
-        Ex::Case(ws, el) => format!("(CASE{}{} END)", ws.iter().map(|(c, x)| format!(" WHEN {} THEN {}", xcond(c), xex(x))).collect::<String>(), el.as_ref().map(|x| format!(" ELSE {}", xex(x))).unwrap_or_default()),
-    }
-}
-fn xcond(c: &Cond) -> String {
-    let items: Vec<String> = c.items.iter().map(|i| match i { Item::C(c) => xcond(c), Item::E(e) => format!("({})", xex(e)) }).collect();
-    let body = if items.is_empty() { if c.any { "(0)".to_string() } else { "(1)".to_string() } } else { format!("({})", items.join(if c.any { " OR " } else { " AND " })) };
-    if c.neg { format!("(NOT {body})") } else { body }
-}
-fn xholder(kw: &str, h: &Holder) -> String {
-    match h { Holder::Empty => String::new(), Holder::Cond(c) => format!(" {kw} {}", xcond(c)),
-        // a chain `a AND b OR c` groups the way SQL reads it: AND binds tighter; every member keeps its own parentheses
-        Holder::Chain(l) => format!(" {kw} {}", l.iter().enumerate().map(|(i, (or, e))| format!("{}({})", if i == 0 { "" } else if *or { " OR " } else { " AND " }, xex(e))).collect::<String>()) }
-}
-fn xorder(o: &OrderItem) -> String {
-    let nulls = match o.nulls_first { None => "", Some(true) => " NULLS FIRST", Some(false) => " NULLS LAST" };
-    match &o.kind {
-        OrderKind::Asc => format!("{} ASC{nulls}", xex(&o.e)), OrderKind::Desc => format!("{} DESC{nulls}", xex(&o.e)),
-        OrderKind::Field(vs) => format!("(CASE{} ELSE {} END){nulls}", vs.iter().enumerate().map(|(i, v)| format!(" WHEN ({} = {}) THEN {i}", xex(&o.e), lit(v))).collect::<String>(), vs.len()),
-    }
-}
-fn xorders(kw: &str, os: &[OrderItem]) -> String { if os.is_empty() { String::new() } else { format!(" {kw} {}", os.iter().map(xorder).collect::<Vec<_>>().join(", ")) } }
-fn xbound(b: &Bound) -> String { match b { Bound::UP => "UNBOUNDED PRECEDING".into(), Bound::P(n) => format!("{n} PRECEDING"), Bound::CR => "CURRENT ROW".into(), Bound::F(n) => format!("{n} FOLLOWING"), Bound::UF => "UNBOUNDED FOLLOWING".into() } }
-fn xwindow(w: &Window) -> String {
-    let mut parts = Vec::new();
-    if !w.partition.is_empty() { parts.push(format!("PARTITION BY {}", w.partition.iter().map(xex).collect::<Vec<_>>().join(", "))); }
-    if !w.orders.is_empty() { parts.push(xorders("ORDER BY", &w.orders).trim_start().to_string()); }
-    if let Some(f) = &w.frame { parts.push(format!("{} {}", if f.rows { "ROWS" } else { "RANGE" }, match &f.stop { Some(e) => format!("BETWEEN {} AND {}", xbound(&f.start), xbound(e)), None => xbound(&f.start) })); }
-    format!("({})", parts.join(" "))
-}
-fn xtref(t: &TRef) -> String {
-    match t {
-        TRef::Named(n) => format!("{}{}", n.parts.iter().map(|p| qi(p)).collect::<Vec<_>>().join("."), n.alias.as_ref().map(|a| format!(" AS {}", qi(a))).unwrap_or_default()),
-        TRef::Sub(s, a) => format!("({}) AS {}", xsel(s), qi(a)),
-        TRef::Vals(rows, a) => format!("(VALUES {}) AS {}", rows.iter().map(|r| format!("({})", r.iter().map(lit).collect::<Vec<_>>().join(", "))).collect::<Vec<_>>().join(", "), qi(a)),
-        TRef::Func(f, _, args, a) => format!("{}({}) AS {}", xfn(f), args.iter().map(xex).collect::<Vec<_>>().join(", "), qi(a)),
-    }
-}
-fn xwith(w: &WithC) -> String {
-    format!("WITH {}{} ", if w.recursive { "RECURSIVE " } else { "" }, w.ctes.iter().map(|c| format!("{}{} AS {}({})", qi(&c.name), if c.cols.is_empty() { String::new() } else { format!(" ({})", c.cols.iter().map(|x| qi(x)).collect::<Vec<_>>().join(", ")) },
-        match c.mat { Some(true) => "MATERIALIZED ", Some(false) => "NOT MATERIALIZED ", None => "" }, xq(&c.q))).collect::<Vec<_>>().join(", "))
-}
-pub fn xsel(s: &Select) -> String {
-    let mut o = String::new();
-    if let Some(w) = &s.with { o += &xwith(w); }
-    o += "SELECT ";
-    if let Some(Distinct::Distinct) = &s.distinct { o += "DISTINCT "; }
-    o += &s.selects.iter().map(|it| format!("{}{}{}", xex(&it.e), match &it.win { WinSel::None => String::new(), WinSel::Name(n) => format!(" OVER {}", qi(n)), WinSel::Query(w) => format!(" OVER {}", xwindow(w)) }, it.alias.as_ref().map(|a| format!(" AS {}", qi(a))).unwrap_or_default())).collect::<Vec<_>>().join(", ");
-    if !s.from.is_empty() { o += " FROM "; o += &s.from.iter().map(xtref).collect::<Vec<_>>().join(", "); }
-    for j in &s.joins { o += &format!(" {} {}{}", ["JOIN", "CROSS JOIN", "INNER JOIN", "LEFT JOIN", "RIGHT JOIN", "FULL OUTER JOIN"][j.ty as usize], xtref(&j.t), xholder("ON", &j.on)); }
-    o += &xholder("WHERE", &s.wher);
-    if !s.groups.is_empty() { o += &format!(" GROUP BY {}", s.groups.iter().map(xex).collect::<Vec<_>>().join(", ")); }
-    o += &xholder("HAVING", &s.having);
-    if let Some((n, w)) = &s.window { o += &format!(" WINDOW {} AS {}", qi(n), xwindow(w)); }
-    for (t, u) in &s.unions { o += [" INTERSECT ", " UNION ", " EXCEPT ", " UNION ALL "][*t as usize]; o += &xsel(u); }
-    o += &xorders("ORDER BY", &s.orders);
-    if let Some(n) = s.limit { o += &format!(" LIMIT {n}"); }
-    if let Some(n) = s.offset { if s.limit.is_none() { o += " LIMIT -1"; } o += &format!(" OFFSET {n}"); }
-    o
-}
-fn xret(r: &Ret) -> String { match r { Ret::None => String::new(), Ret::All => " RETURNING *".into(), Ret::Cols(cs) => format!(" RETURNING {}", cs.iter().map(xcol).collect::<Vec<_>>().join(", ")), Ret::Exprs(es) => format!(" RETURNING {}", es.iter().map(xex).collect::<Vec<_>>().join(", ")) } }
-pub fn xq(q: &Query) -> String {
-    match q {
-        Query::Sel(s) => xsel(s),
-        Query::With(w, q) => format!("{}{}", xwith(w), xq(q)),
-        Query::Ins(i) => {
-            let mut o = String::new();
-            if let Some(w) = &i.with { o += &xwith(w); }
-            o += if i.replace { "REPLACE" } else { "INSERT" };
-            if let Some(t) = &i.table { o += &format!(" INTO {}", xtref(t)); }
-            if i.default_values.is_some() && i.columns.is_empty() && matches!(i.source, Source::None) { o += " DEFAULT VALUES"; }
-            else {
-                o += &format!(" ({})", i.columns.iter().map(|c| qi(c)).collect::<Vec<_>>().join(", "));
-                match &i.source { Source::None => {} Source::Values(rows) => o += &format!(" VALUES {}", rows.iter().map(|r| format!("({})", r.iter().map(xex).collect::<Vec<_>>().join(", "))).collect::<Vec<_>>().join(", ")), Source::Select(s) => { o += " "; o += &xsel(s); } }
-            }
-            if let Some(oc) = &i.on_conflict {
-                o += " ON CONFLICT";
-                if !oc.targets.is_empty() { o += &format!(" ({})", oc.targets.iter().map(|t| match t { Target::Col(c) => qi(c), Target::Expr(e) => xex(e) }).collect::<Vec<_>>().join(", ")); }
-                o += &xholder("WHERE", &oc.target_where);
-                match &oc.action { Action::None => {} Action::Nothing(_) => o += " DO NOTHING",
-                    Action::Update(us) => o += &format!(" DO UPDATE SET {}", us.iter().map(|u| match u { Upd::Col(c) => format!("{} = \"excluded\".{}", qi(c), qi(c)), Upd::Expr(c, e) => format!("{} = {}", qi(c), xex(e)) }).collect::<Vec<_>>().join(", ")) }
-                o += &xholder("WHERE", &oc.action_where);
-            }
-            o + &xret(&i.returning)
-        }
-        Query::Upd(u) => {
-            let mut o = String::new();
-            if let Some(w) = &u.with { o += &xwith(w); }
-            o += "UPDATE "; if let Some(t) = &u.table { o += &xtref(t); }
-            o += &format!(" SET {}", u.sets.iter().map(|(c, e)| format!("{} = {}", qi(c), xex(e))).collect::<Vec<_>>().join(", "));
-            if !u.from.is_empty() { o += &format!(" FROM {}", u.from.iter().map(xtref).collect::<Vec<_>>().join(", ")); }
-            o += &xholder("WHERE", &u.wher);
-            // RETURNING comes before ORDER BY / LIMIT in SQLite's grammar for UPDATE / DELETE
-            o += &xret(&u.returning); o += &xorders("ORDER BY", &u.orders);
-            if let Some(n) = u.limit { o += &format!(" LIMIT {n}"); }
-            o
-        }
-        Query::Del(d) => {
-            let mut o = String::new();
-            if let Some(w) = &d.with { o += &xwith(w); }
-            o += "DELETE"; if let Some(t) = &d.table { o += &format!(" FROM {}", xtref(t)); }
-            o += &xholder("WHERE", &d.wher); o += &xret(&d.returning); o += &xorders("ORDER BY", &d.orders);
-            if let Some(n) = d.limit { o += &format!(" LIMIT {n}"); }
-            o
-        }
-    }
-}
+/// the explicit reference rendering for SQLite (`explicit.rs`)
+pub fn xq(q: &Query) -> String { crate::explicit::render(B::Sqlite, q) }
 
 fn bind_json(v: &Value) -> serde_json::Value {
     match crate::stmt::payload_of(v) {
